@@ -173,6 +173,21 @@ def _stored_arity(ci: core.ClassInfo) -> typing.Optional[int]:
     return None
 
 
+def _dynamic_instance_class(ci: core.ClassInfo) -> typing.Optional[ast.AST]:
+    """The statement of ``ci.__new__`` that rebinds the class handed to ``super().__new__`` to a freshly created type."""
+    new = ci.methods.get('__new__')
+    if new is None:
+        return None
+    first = new.args.args[0].arg if new.args.args else None
+    supers = [c for c in core.calls_in(new) if isinstance(c.func, ast.Attribute) and c.func.attr == '__new__' and isinstance(c.func.value, ast.Call) and core.call_name(c.func.value) == 'super']
+    if not first or not any(c.args and core.src(c.args[0]) == first for c in supers):
+        return None
+    for n in core.walk_local(new):
+        if isinstance(n, ast.Assign) and any(isinstance(t, ast.Name) and t.id == first for t in n.targets) and isinstance(n.value, ast.Call):
+            return n
+    return None
+
+
 def r_eqhash(ctx) -> None:
     prog = ctx.prog
     n = 0
@@ -216,6 +231,12 @@ def r_eqhash(ctx) -> None:
                 a = _stored_arity(c)
                 if a is not None:
                     arities.setdefault(a, []).append(c.name)
+            # the arity argument covers the classes written in the source only: a family member that creates the class of
+            # its instances at run time (one type per table name) defeats it - equal tuples, different classes, different hashes
+            for c in fam:
+                dyn = _dynamic_instance_class(c)
+                if dyn is not None:
+                    ctx.fail('R-EQHASH', c.ref, f'{c.qual} creates the class of its instances dynamically (`{core.src(dyn)[:70]}`) while the hash mixes in the class and equality is plain tuple equality: equal objects of differently named types hash differently', dyn, key=f'{c.qual}:dynamic-class')
             clash = {a: v for a, v in arities.items() if len(v) > 1 and not _same_lineage(prog, v, fam)}
             ctx.check(not clash, 'R-EQHASH', ci.ref, f'{ci.qual}: hash mixes in the class, equality is tuple equality; concrete classes store tuples of pairwise distinct arity {dict(sorted(arities.items()))}', key=f'{ci.qual}:arity', loc=f'{ci.module.relpath}:{hash_node.lineno}')
             continue
@@ -358,8 +379,189 @@ def cache_census(ctx) -> None:
     ctx.ok('C08.caches', 'forml.io', f'{len(out)} memoised functions/properties keyed by DSL objects listed (poisoned by any equality defect)')
 
 
+MEMO_EXAMPLE = '''
+class R:
+    CACHE = {}
+    def a(self, statement):
+        key = hash(statement)
+        if key not in self._parsed:
+            self._parsed[key] = 1
+        return self._parsed[key]
+    def b(self, name):
+        key = id(self), name
+        return R.CACHE.setdefault(key, 2)
+    def c(self, builder):
+        groups = {}
+        return groups.setdefault(id(builder), 3)
+'''
+
+
+def memo_keys(fn_node: ast.AST) -> list[tuple[ast.AST, str]]:
+    """Accesses of a *long-lived* mapping (instance / class attribute, module global) keyed by ``hash(x)`` or ``id(x)`` -
+    directly or through a local name bound to such an expression.  A hash is not an identity (hash(-1) == hash(-2), so two
+    statements differing in one literal collide) and an address is re-used after garbage collection."""
+
+    def weak(expr: ast.AST) -> typing.Optional[str]:
+        for n in ast.walk(expr):
+            if isinstance(n, ast.Call) and isinstance(n.func, ast.Name) and n.func.id in ('hash', 'id') and len(n.args) == 1:
+                return n.func.id
+        return None
+
+    local_containers = set()
+    tainted: dict[str, str] = {}
+    for n in core.walk_local(fn_node):
+        if isinstance(n, (ast.Assign, ast.AnnAssign)) and getattr(n, 'value', None) is not None:
+            tgts = n.targets if isinstance(n, ast.Assign) else [n.target]
+            w = weak(n.value)
+            for t in tgts:
+                if isinstance(t, ast.Name):
+                    if w:
+                        tainted[t.id] = w
+                    if isinstance(n.value, (ast.Dict, ast.DictComp)) or (isinstance(n.value, ast.Call) and core.call_name(n.value) in ('dict', 'collections.defaultdict', 'collections.OrderedDict')):
+                        local_containers.add(t.id)
+
+    def keyed(expr: ast.AST) -> typing.Optional[str]:
+        w = weak(expr)
+        if w:
+            return w
+        for n in ast.walk(expr):
+            if isinstance(n, ast.Name) and n.id in tainted:
+                return tainted[n.id]
+        return None
+
+    def long_lived(c: ast.AST) -> bool:
+        if isinstance(c, ast.Attribute):
+            return True
+        return isinstance(c, ast.Name) and c.id not in local_containers and c.id.isupper()
+
+    out = []
+    for n in core.walk_local(fn_node):
+        if isinstance(n, ast.Subscript) and long_lived(n.value):
+            w = keyed(n.slice)
+            if w:
+                out.append((n, w))
+        elif isinstance(n, ast.Compare) and len(n.ops) == 1 and isinstance(n.ops[0], (ast.In, ast.NotIn)) and long_lived(n.comparators[0]):
+            w = keyed(n.left)
+            if w:
+                out.append((n, w))
+        elif isinstance(n, ast.Call) and isinstance(n.func, ast.Attribute) and n.func.attr in ('get', 'setdefault', 'pop') and n.args and long_lived(n.func.value):
+            w = keyed(n.args[0])
+            if w:
+                out.append((n, w))
+    return out
+
+
+def r_memokey(ctx) -> None:
+    prog = ctx.prog
+    ex = ast.parse(MEMO_EXAMPLE)
+    core.link_parents(ex) if hasattr(core, 'link_parents') else None
+    fns = {f.name: f for f in ast.walk(ex) if isinstance(f, core.FUNC)}
+    if not (len(memo_keys(fns['a'])) == 3 and len(memo_keys(fns['b'])) == 1 and not memo_keys(fns['c'])):
+        raise core.AnalysisError('R-MEMOKEY matcher self-check failed on the embedded example')
+    n = 0
+    for fn in prog.functions([m for m in prog.modules if m.startswith(('forml.io.dsl', 'forml.io._input', 'forml.provider.feed', 'forml.io._output'))]):
+        if fn.name in ('__hash__', '__eq__'):
+            continue
+        n += 1
+        seen = set()
+        for site, w in memo_keys(fn.node):
+            st = core.enclosing_stmt(site)
+            if id(st) in seen:
+                continue
+            seen.add(id(st))
+            ctx.fail('R-MEMOKEY', fn, f'a long-lived mapping is keyed by {w}(...) of an object instead of the object: `{core.src(site)[:80]}` ({"equal hashes do not mean equal statements - hash(-1) == hash(-2)" if w == "hash" else "addresses are re-used once the object is collected"})', st)
+    ctx.ok('R-MEMOKEY', 'forml.io', f'{n} functions scanned for memo tables keyed by hash()/id() (matcher self-checked on an embedded example)')
+    ctx.floor('R-MEMOKEY.functions', n, 300)
+
+
+def native_identity(ctx) -> None:
+    """A DSL value wrapping a *native python* payload (``value: typing.Any``) stores the reflected kind next to it: python's
+    cross-type equality (1 == True == 1.0 == Decimal(1)) would otherwise make differently typed literals equal and hash-equal."""
+    prog = ctx.prog
+    n = 0
+    for ci in sorted(prog.classes.values(), key=lambda c: c.ref):
+        if ci.module.name not in FAMILY_MODULES or '__new__' not in ci.methods:
+            continue
+        new = prog.func(f'{ci.ref}.__new__')
+        native = [a.arg for a in new.node.args.args[1:] if a.annotation is not None and core.src(a.annotation) in ('typing.Any', 'Any')]
+        if not native or not any(getattr(b, 'name', '') in ('Operable', 'Feature') for b in ci.mro()):
+            continue
+        n += 1
+        supers = [c for c in core.calls_in(new.node) if isinstance(c.func, ast.Attribute) and c.func.attr == '__new__' and isinstance(c.func.value, ast.Call) and core.call_name(c.func.value) == 'super']
+        for p in native:
+            ok = any(any(core.src(a) == p for a in c.args[1:]) and any(isinstance(a, ast.Call) and core.call_tail(a) == 'reflect' and [core.src(x) for x in a.args] == [p] for a in c.args[1:]) for c in supers)
+            ctx.check(ok, 'C08.native-identity', new, f'{ci.qual} stores its native payload `{p}` together with the kind reflected from it (value-only identity would equate 1, True and 1.0)', new.node, key=f'{ci.qual}:{p}')
+    ctx.floor('C08.native-identity', n, 1)
+
+
+CACHEDEP_EXAMPLE = '''
+class S(type):
+    @functools.lru_cache
+    def __getitem__(cls, name):
+        try:
+            return getattr(cls, name)
+        except AttributeError:
+            return [f for f in cls if f.name == name][0]
+    @functools.lru_cache
+    def ok(cls, name):
+        return getattr(cls, 'fixed') and [f for f in cls if f.name == name]
+    def pairs(self):
+        return [f for s, f in zip(self.schema, self.features)]
+'''
+
+
+def namespace_reads(fn_node: ast.AST) -> list[ast.AST]:
+    """Reads of the attribute *namespace* of self/cls with a non-constant key: getattr(self, name), vars(self), self.__dict__."""
+    out = []
+    first = fn_node.args.args[0].arg if fn_node.args.args else 'self'
+    for n in core.walk_local(fn_node):
+        if isinstance(n, ast.Call) and isinstance(n.func, ast.Name) and n.func.id in ('getattr', 'hasattr') and len(n.args) >= 2 and core.src(n.args[0]) == first and not isinstance(n.args[1], ast.Constant):
+            out.append(n)
+        elif isinstance(n, ast.Call) and isinstance(n.func, ast.Name) and n.func.id == 'vars' and n.args and core.src(n.args[0]) == first:
+            out.append(n)
+        elif isinstance(n, ast.Attribute) and n.attr == '__dict__' and core.src(n.value) == first:
+            out.append(n)
+    return out
+
+
+def schema_feature_zips(fn_node: ast.AST) -> list[ast.Call]:
+    """zip() pairing a *schema* (keyed by field name: equally named fields collapse) with a positional *feature* sequence."""
+    out = []
+    for c in core.calls_in(fn_node):
+        if core.call_name(c) == 'zip' and len(c.args) >= 2:
+            tails = [(core.dotted(a) or '').split('.')[-1] for a in c.args]
+            if 'schema' in tails and any(t in ('features', 'columns') for t in tails):
+                out.append(c)
+    return out
+
+
+def r_cachedep(ctx) -> None:
+    """(a) A memoised method of a structurally compared DSL class answers from what that equality compares - never from the
+    attribute namespace (attribute keys are not part of a schema's structural identity: the cached answer of one object would
+    be served for an equal one that lacks the key).  (b) a schema is never zipped with a positional feature list."""
+    prog = ctx.prog
+    ex = {f.name: f for f in ast.walk(ast.parse(CACHEDEP_EXAMPLE)) if isinstance(f, core.FUNC)}
+    if not (len(namespace_reads(ex['__getitem__'])) == 1 and not namespace_reads(ex['ok']) and len(schema_feature_zips(ex['pairs'])) == 1):
+        raise core.AnalysisError('R-CACHEDEP matcher self-check failed on the embedded example')
+    n = 0
+    for fn in prog.functions([m for m in prog.modules if m in FAMILY_MODULES]):
+        decos = [d.split('.')[-1] for d in core.decorator_names(fn.node)]
+        if any(d in ('lru_cache', 'cache') for d in decos) and fn.cls is not None and (fn.cls.lookup('__eq__') is not None or fn.cls.lookup('__hash__') is not None):
+            n += 1
+            for site in namespace_reads(fn.node):
+                ctx.fail('R-CACHEDEP', fn, f'memoised by the structurally compared object but resolving through its attribute namespace (`{core.src(site)}`): equal objects with different attribute keys get each other\'s cached answers', site)
+        for z in schema_feature_zips(fn.node):
+            if prog.func_of_node(z) is fn:
+                ctx.fail('R-ZIPALIGN', fn, f'`{core.src(z)}` pairs a name-keyed schema (equally named fields collapse) with a positional feature sequence: positions disagree as soon as two features share a name', z)
+    ctx.ok('R-CACHEDEP', 'forml.io.dsl', f'{n} memoised methods of structurally compared DSL classes checked for namespace reads; family scanned for schema/feature zips (matchers self-checked on an embedded example)')
+    ctx.floor('R-CACHEDEP.methods', n, 1)
+
+
 def run(ctx) -> None:
     tenv = types.TypeEnv(ctx.prog)
+    r_memokey(ctx)
+    r_cachedep(ctx)
+    native_identity(ctx)
     r_hasheq(ctx)
     r_eqhash(ctx)
     singletons(ctx)
